@@ -1,6 +1,6 @@
 (* C01: generated serializers emit exactly the DSDL wire representation.
-   Statements only; proofs in Spec/WireThm*.v (specification level) and Codec/Refine.v (code-shaped walker). *)
-From Verif Require Import Wire WireThm WireThmRt WireThmValid Walker.
+   Statements only; proofs in Spec/WireThm*.v (specification level) and Codec/Refine.v, Codec/RefineSer*.v (code-shaped walker). *)
+From Verif Require Import Wire WireThm WireThmRt WireThmValid Walker Refine RefineSerBits RefineSerBase RefineSer Gen_C01 GenC01Thm.
 Local Open Scope nat_scope.
 
 (* every encoding of every well-formed type lies within the exported bounds; composites are whole bytes *)
@@ -30,6 +30,98 @@ Theorem c01_encoding_decodes_to_cast : forall t v b r, wf_ty t = true -> enc_bod
   dec_body t (b ++ r) = Ok (cast_val t v, length b).
 Proof. exact dec_enc. Qed.
 Print Assumptions c01_encoding_decodes_to_cast.
+
+(* SERIALIZATION REFINEMENT (Codec/RefineSer.v): for every primitive record satisfying the laws, every well-formed composite
+   type (primitives of every kind/width at arbitrary bit offsets incl. the aligned whole-byte fast path, arrays of anything,
+   alignment padding, nested sealed and delimited composites with the header written after the body, unions), every value that
+   fits the storage types of the generated fields, EVERY initial buffer content and every capacity, the code-shaped walker
+   returns exactly what the contract prescribes: too-small iff 8*cap < max, the specification's error, or the specification's
+   bits. *)
+Theorem c01_walker_ser_refines : forall P u fs ext v buf cap, prims_ok P ->
+  wf_ty (TComp u fs ext) = true -> length buf = 8 * cap -> storage_ok (TComp u fs ext) v = true ->
+  walk_ser P (TComp u fs ext) v buf cap = ser_spec (TComp u fs ext) v cap.
+Proof. exact walk_ser_refines_composite. Qed.
+Print Assumptions c01_walker_ser_refines.
+
+Theorem c01_walker_ser_obs_refines : forall u fs ext v buf cap,
+  wf_ty (TComp u fs ext) = true -> length buf = 8 * cap -> storage_ok (TComp u fs ext) v = true ->
+  walk_ser_obs (TComp u fs ext) v buf cap = ser_obs_spec (TComp u fs ext) v cap.
+Proof. exact walk_ser_obs_refines. Qed.
+Print Assumptions c01_walker_ser_obs_refines.
+
+(* the whole effect on the buffer, for EVERY initial content: the emitted bits followed by the untouched rest of the buffer *)
+Theorem c01_walker_ser_buffer_effect : forall P u fs ext v buf cap bits, prims_ok P ->
+  wf_ty (TComp u fs ext) = true -> length buf = 8 * cap -> storage_ok (TComp u fs ext) v = true ->
+  bmax (TComp u fs ext) <= 8 * cap -> enc_body (TComp u fs ext) v = Ok bits ->
+  ws_body P (TComp u fs ext) v buf 0 = Ok (bits ++ skipn (length bits) buf, length bits).
+Proof. exact ws_body_effect_composite. Qed.
+Print Assumptions c01_walker_ser_buffer_effect.
+
+(* the invariant behind it, at every node of the type and every cursor the up-front capacity check allows: the walker fails
+   with the specification's error or advances the cursor by |bits| and leaves `old prefix ++ bits` in the buffer *)
+Theorem c01_walker_ser_invariant : forall P L t, prims_ok P -> L mod 8 = 0 -> wf_ty t = true ->
+  forall v buf off, storage_ok t v = true -> length buf = L -> off mod align t = 0 -> off + bmax t <= L ->
+  ser_sim buf off (enc_body t v) (ws_body P t v buf off).
+Proof. intros P L t HP HL. exact (ser_all P HP L HL t). Qed.
+Print Assumptions c01_walker_ser_invariant.
+
+(* the storage proviso is necessary, and the statement left open by the first round (proviso True, any top-level type) is false *)
+Theorem c01_walker_ser_unrestricted_refuted : ~ walk_ser_refines_statement.
+Proof. exact walk_ser_refines_statement_refuted. Qed.
+Print Assumptions c01_walker_ser_unrestricted_refuted.
+
+(* TRANSLATOR TIE (Generated/Gen_C01.v is rewritten from /repo's Python source on every run; Codec/GenC01Thm.v): the helper
+   functions the serialization templates call are what the walker assumes.  filter_bits2bytes_ceil is ceil(n/8) and agrees with
+   the walker's size arithmetic; filter_to_standard_bit_length is Walker.std_width and its fixed points are Walker.is_std; the
+   walker's storage image / saturation decision expressed through the translated functions; is_zero_cost_primitive. *)
+Theorem c01_tie_bits2bytes_ceil : forall n : Z,
+  (0 <= n -> exists c, filter_bits2bytes_ceil n = Some c /\ n <= 8 * c /\ 8 * (c - 1) < n)%Z /\
+  (n < 0 -> filter_bits2bytes_ceil n = None)%Z.
+Proof. exact bits2bytes_ceil_spec. Qed.
+Print Assumptions c01_tie_bits2bytes_ceil.
+
+Theorem c01_tie_bits2bytes_walker_size : forall n : nat, n mod 8 = 0 ->
+  filter_bits2bytes_ceil (Z.of_nat n) = Some (Z.of_nat (n / 8)).
+Proof. exact bits2bytes_ceil_nat_aligned. Qed.
+Print Assumptions c01_tie_bits2bytes_walker_size.
+
+Theorem c01_tie_std_width : forall w : nat, w <= 64 ->
+  filter_to_standard_bit_length (Z.of_nat w) = Some (Z.of_nat (std_width w)).
+Proof. exact to_standard_bit_length_is_std_width. Qed.
+Print Assumptions c01_tie_std_width.
+
+Theorem c01_tie_is_std : forall w : nat, is_std w = true <-> filter_to_standard_bit_length (Z.of_nat w) = Some (Z.of_nat w).
+Proof. exact is_std_iff_fixed_point. Qed.
+Print Assumptions c01_tie_is_std.
+
+Theorem c01_tie_saturation_decision : forall (w : nat) (sat : bool) (z : Z), w <= 64 ->
+  filter_to_standard_bit_length (Z.of_nat w) = Some (Z.of_nat (std_width w)) /\
+  storage_bits (PU w sat) (VInt z) =
+    Some (bits_of_N (std_width w)
+            (Z.to_N ((if sat && negb (translated_is_std w) then clampZ 0 (pow2 w - 1) z else z) mod pow2 (std_width w)))).
+Proof. exact walker_storage_decision_unsigned. Qed.
+Print Assumptions c01_tie_saturation_decision.
+
+Theorem c01_tie_zero_cost : forall e t,
+  is_zero_cost_primitive e t = Some true <->
+  e = endian_little /\
+  ((pd_kind t = KInteger /\ pd_standard_bit_length t = true) \/
+   (pd_kind t = KFloat /\ (pd_bit_length t = 32 \/ pd_bit_length t = 64)%Z)).
+Proof. exact zero_cost_spec. Qed.
+Print Assumptions c01_tie_zero_cost.
+
+Theorem c01_tie_zero_cost_plain_copy : forall e w sat,
+  is_zero_cost_primitive e (desc_of_prim (PU w sat)) = Some true ->
+  e = endian_little /\ std_width w = w /\ sat && negb (is_std w) = false.
+Proof. exact zero_cost_means_plain_copy. Qed.
+Print Assumptions c01_tie_zero_cost_plain_copy.
+
+(* non-vacuity of the hypotheses of c01_walker_ser_refines (ex_union is defined below in the examples) *)
+Example c01_storage_ok_example :
+  storage_ok (TComp true [TPrim (PU 8 true); TComp false [TPrim (PU 3 true); TPrim (PS 13 true); TPrim (PF 16 true)] (Some 64);
+                          TVar (TPrim PBool) 9] None)
+             (VUnion 1 (VStruct [VInt 9; VInt (-5000); VFlt 1065357312%N])) = true.
+Proof. vm_compute. reflexivity. Qed.
 
 (* non-vacuity: a well-formed type with a union, a delimited nested type, a saturated non-standard integer and a float16 *)
 Definition ex_inner : ty := TComp false [TPrim (PU 3 true); TPrim (PS 13 true); TPrim (PF 16 true)] (Some 64).
